@@ -116,6 +116,7 @@ type Master struct {
 	Found       []Found
 	Deaths      int
 	Exhaustive  bool
+	Aborted     bool
 	UnitReports []map[string]interface{}
 	EventfulTr  int
 	distinctNT  map[string]bool
@@ -248,6 +249,15 @@ func (m *Master) runJob(pp **proc, j job) jobOut {
 		if lastT < 0 {
 			return out
 		}
+		m.mu.Lock()
+		tooMany := m.tooManyDeaths(m.Deaths)
+		if tooMany {
+			m.Aborted = true
+		}
+		m.mu.Unlock()
+		if tooMany {
+			return out // the run is being stopped early (see expired)
+		}
 		from = lastT + 1
 	}
 }
@@ -280,7 +290,32 @@ func (m *Master) parallel(jobs []job) []jobOut {
 	return outs
 }
 
-func (m *Master) expired() bool { return !m.Deadline.IsZero() && time.Now().After(m.Deadline) }
+func (m *Master) expired() bool {
+	if !m.Deadline.IsZero() && time.Now().After(m.Deadline) {
+		return true
+	}
+	// Early stop: once the verdict is settled (many findings), or worker
+	// processes keep dying, further exploration only costs time. The run is
+	// then reported as not exhaustive.
+	m.mu.Lock()
+	deaths := m.Deaths
+	m.mu.Unlock()
+	if len(m.Found) > 2000 || m.tooManyDeaths(deaths) {
+		m.Aborted = true
+		return true
+	}
+	return false
+}
+
+// tooManyDeaths: where a worker death is itself a violation (C05, C14) a few
+// hundred are tolerated (the known finding alone accounts for ~200); elsewhere
+// a death only means "cannot be judged here" and 60 of them end the run.
+func (m *Master) tooManyDeaths(deaths int) bool {
+	if m.Check.DeathIsViolation {
+		return deaths > 400
+	}
+	return deaths > 60
+}
 
 func (m *Master) bfs(ui int, sc *Scenario) {
 	seen := map[string]bool{}
@@ -349,6 +384,9 @@ func (m *Master) bfs(ui int, sc *Scenario) {
 			fmt.Fprintf(os.Stderr, "  [%s] depth %d: states=%d transitions=%d frontier=%d found=%d\n", sc.Name, completed, states, trans, len(frontier), len(m.Found))
 		}
 	}
+	if m.Aborted {
+		exhaustive = false
+	}
 	rep["states"] = states
 	rep["transitions"] = trans
 	rep["depth_completed"] = completed
@@ -380,7 +418,7 @@ func (m *Master) enumerate(ui int, en *Enum) {
 	}
 	done := 0
 	exhaustive := true
-	const slice = 256
+	const slice = 64
 	for s := 0; s < len(jobs); s += slice {
 		if m.expired() {
 			exhaustive = false
@@ -399,7 +437,8 @@ func (m *Master) enumerate(ui int, en *Enum) {
 	m.Items += done
 	m.Transitions += done
 	m.States += done
-	if !exhaustive {
+	if !exhaustive || m.Aborted {
+		exhaustive = false
 		m.Exhaustive = false
 	}
 	m.UnitReports = append(m.UnitReports, map[string]interface{}{"unit": en.Name, "kind": "enumeration", "items": en.N, "items_done": done, "exhaustive": exhaustive})
@@ -541,7 +580,7 @@ func (m *Master) Run(verifDir string, seed int) int {
 	}
 	sort.Strings(rules)
 	known := loadKnown(filepath.Join(verifDir, "known_findings.json"), m.Check.ID)
-	replayDir := filepath.Join(verifDir, "evidence", "replays")
+	replayDir := filepath.Join(evidenceDir(verifDir), "replays")
 	os.MkdirAll(replayDir, 0o755)
 	violations := 0
 	knownMatched := map[string]int{}
@@ -674,6 +713,16 @@ func (m *Master) describe(f Found) []string {
 	return out
 }
 
+// evidenceDir: /verif/evidence, unless VERIF_EVIDENCE_DIR redirects it (used
+// when the checks are run against deliberately broken trees, so that the
+// committed evidence is not overwritten).
+func evidenceDir(verifDir string) string {
+	if d := os.Getenv("VERIF_EVIDENCE_DIR"); d != "" {
+		return d
+	}
+	return filepath.Join(verifDir, "evidence")
+}
+
 func sanitize(s string) string {
 	r := strings.NewReplacer("/", "_", " ", "_", ":", "_", "[", "", "]", "")
 	s = r.Replace(s)
@@ -722,6 +771,7 @@ func (m *Master) writeEvidence(verifDir string, seed int, wall float64, violatio
 		"worker_deaths":                 m.Deaths,
 		"known_findings_matched":        knownMatched,
 		"workers":                       m.Workers,
+		"stopped_early":                 m.Aborted,
 	}
 	ev := map[string]interface{}{
 		"property_id": m.Check.ID,
@@ -733,12 +783,12 @@ func (m *Master) writeEvidence(verifDir string, seed int, wall float64, violatio
 			"bounded: the verdict covers exactly the histories / inputs enumerated within the bounds listed under coverage.units",
 			"trusted: Go runtime and reflect; the harness's generic function body, tokens and execution log; the reference model where the oracle uses it",
 		}, m.Check.Assumptions...),
-		"wall_s":      wall,
-		"violations":  violations,
+		"wall_s":     wall,
+		"violations": violations,
 	}
 	b, _ := json.MarshalIndent(ev, "", " ")
-	os.MkdirAll(filepath.Join(verifDir, "evidence"), 0o755)
-	os.WriteFile(filepath.Join(verifDir, "evidence", m.Check.ID+".json"), b, 0o644)
+	os.MkdirAll(evidenceDir(verifDir), 0o755)
+	os.WriteFile(filepath.Join(evidenceDir(verifDir), m.Check.ID+".json"), b, 0o644)
 }
 
 // samplePath walks the first allowed op at each depth (in-process on a model
